@@ -18,6 +18,11 @@ BASE = [
      "harmonicWalls {\n  name w\n  colvars a\n  upperWalls 100.0\n  forceConstant 0.1\n}\n"),
     ("colvarsTrajFrequency 0\ncolvar {\n  name z\n  distanceZ {\n    main { atomNumbers 1 2 }\n    ref { atomNumbers 3 }\n    axis (0.0, 0.0, 1.0)\n  }\n}\n"
      "linear {\n  name l\n  colvars z\n  centers 0.5\n  forceConstant 1.5\n}\n"),
+    # biases on two variables: lists with one value per variable
+    ("colvar {\n  name p\n  distance {\n    group1 { atomNumbers 1 }\n    group2 { atomNumbers 2 }\n  }\n}\n"
+     "colvar {\n  name q\n  distance {\n    group1 { atomNumbers 3 }\n    group2 { atomNumbers 4 }\n  }\n}\n"
+     "harmonic {\n  name h2\n  colvars p q\n  centers 3.0 2.0\n  forceConstant 1.5\n}\n"
+     "harmonicWalls {\n  name w2\n  colvars p q\n  lowerWalls 1.0 1.5\n  upperWalls 5.0 6.0\n  forceConstant 0.2\n}\n"),
 ]
 NATOMS = 4
 
@@ -65,9 +70,12 @@ def rewrite_layout(rng, conf):
     return s
 
 
-def mutate_keyword(rng, conf):
+MUT_KINDS = ["misspell", "context", "novalue", "text", "brace", "brace2", "trailing", "glued", "among", "fewer", "more"]
+
+
+def mutate_keyword(rng, conf, kind=None):
     """a keyword-level mutation that must be rejected"""
-    kind = rng.choice(["misspell", "context", "novalue", "text", "brace", "brace2", "trailing", "glued", "among"])
+    kind = kind or rng.choice(MUT_KINDS)
     lines = conf.split("\n")
     idx = [i for i, l in enumerate(lines) if re.match(r"^\s+(name|width|centers|forceConstant|colvars|upperWalls|lowerBoundary)\b", l)]
     if kind == "misspell":
@@ -90,6 +98,17 @@ def mutate_keyword(rng, conf):
         cand = [j for j, l in enumerate(lines) if re.match(r"^\s+(forceConstant|width)\s+\S+\s*$", l)]
         i = rng.choice(cand)
         lines[i] = lines[i].rstrip() + (" abc" if kind == "trailing" else "abc")
+    elif kind in ("fewer", "more"):
+        # a list with one value per variable given one value too few / too many
+        cand = [j for j, l in enumerate(lines) if re.match(r"^\s+(centers|upperWalls|lowerWalls)\s+\S+\s+\S+\s*$", l)]
+        # (centers is read into a list already sized to the number of variables; walls are sized afterwards: both paths)
+        cc = [j for j in cand if "centers" in lines[j]]
+        if cc and rng.rand() < 0.7:
+            cand = cc
+        if not cand:
+            return mutate_keyword(rng, conf, rng.choice(MUT_KINDS[:9]))
+        i = rng.choice(cand)
+        lines[i] = re.sub(r"\s+\S+\s*$", "", lines[i]) if kind == "fewer" else lines[i].rstrip() + " 7.0"
     elif kind == "among":
         # text among the numbers of a list: what follows must not be dropped silently
         cand = [j for j, l in enumerate(lines) if re.match(r"^\s+(centers|upperWalls)\s", l)]
@@ -150,8 +169,9 @@ def gen(rng, tier):
         cases.append({"lines": lines, "meta": {"kind": "layout", "marks": marks, "nsteps": 2, "variants": variants[1:]}, "nontrivial": True})
     # (c) keyword mutations, followed by the valid configuration in the same module and in a fresh one
     for k in range(m * 2):
-        base = BASE[k % len(BASE)]
-        bad, kind = mutate_keyword(rng, base)
+        want = MUT_KINDS[k % len(MUT_KINDS)]          # every kind of mutation in turn
+        base = BASE[3] if want in ("fewer", "more") else BASE[k % len(BASE)]
+        bad, kind = mutate_keyword(rng, base, want)
         r2 = rng.fork()
         st = steps(r2)
         lines = ["m.new %d" % NATOMS, "M.noclock", cfg(bad)]
@@ -167,14 +187,15 @@ def gen(rng, tier):
                                                 "nlines": len(st), "bad": bad}, "nontrivial": True})
     # (c') rejected configuration, then the corrected one WITHOUT reset
     for k in range(m):
-        base = BASE[k % len(BASE)]
-        bad, kind = mutate_keyword(rng, base)
+        want = MUT_KINDS[(k + 5) % len(MUT_KINDS)]
+        base = BASE[3] if want in ("fewer", "more") else BASE[k % len(BASE)]
+        bad, kind = mutate_keyword(rng, base, want)
         r2 = rng.fork()
         st = steps(r2)
         lines = ["m.new %d" % NATOMS, "M.noclock", cfg(bad)]
         bad_line = len(lines)
         # delete whatever survived the rejected configuration, object by object, then feed the corrected text
-        lines += ["m.scriptq cv colvar d delete", "m.scriptq cv colvar a delete", "m.scriptq cv colvar z delete", cfg(base)]
+        lines += ["m.scriptq cv colvar %s delete" % nm for nm in ("d", "a", "z", "p", "q")] + [cfg(base)]
         ok_line = len(lines)
         lines += st
         first = len(lines) - len(st) + 1
